@@ -873,6 +873,9 @@ def adapt_typehints(
                 val[n] = adapt_typehints(v, subtypehint, **adapt_kwargs)
         if not serialize:
             val = tuple(val) if typehint_origin in {Tuple, tuple} else set(val)
+        elif typehint_origin not in {Tuple, tuple}:
+            with suppress(TypeError):  # a set has no order of its own: dump it in a reproducible one
+                val = sorted(val, key=lambda v: (type(v).__name__, v))
 
     # List, Iterable or Sequence
     elif typehint_origin in sequence_origin_types:
